@@ -19,6 +19,7 @@ PIPE_SPEC = Spec(
     copy_methods=frozenset({"__copy__", "copy"}),
     root_classes=frozenset({"CompilePipeline"}),
     share_attrs=frozenset({"_compile_pipeline", "_markers"}),
+    mutating_methods=frozenset(INPLACE - {"__init__"}),  # calling the in-place API on an operand is a write to it
 )
 
 
@@ -59,6 +60,29 @@ def check(ctx):
             for s in shares:
                 rep.refuted("R-C23-fresh", MOD, f.qualname, s.node, f"`{name}` {s.why}", line=s.line)
     rep.floor("pure CompilePipeline methods analysed", n_pure, 18)
+
+    # module-level functions that receive a pipeline (the generic-dispatch handler transform(pipeline), helpers): same two rules
+    n_fn = 0
+    for mod in ix.modules.values():
+        if not mod.relpath.startswith("pennylane/core/transforms/"):
+            continue
+        for f in ix.funcs_in(mod):
+            if f.cls is not None or f.parent is not None or not f.node.args.args:
+                continue
+            a0 = f.node.args.args[0]
+            if a0.annotation is None or "CompilePipeline" not in norm(a0.annotation):
+                continue
+            n_fn += 1
+            rep.analysed(mod.relpath, f.qualname)
+            res = eng.analyse(f, {a0.arg: {T}})
+            if not res.sinks:
+                rep.proved("R-C23-pure", f"{mod.relpath}:{f.qualname}", f"does not write to the pipeline `{a0.arg}` it is given nor share its containers")
+            for s in res.sinks:
+                rule = "R-C23-fresh" if s.kind == "share" else "R-C23-pure"
+                rep.refuted(rule, mod.relpath, f.qualname, s.node,
+                            f"`{f.name}` builds a new pipeline from `{a0.arg}` but {s.why}: editing the markers / transforms of the derived "
+                            "pipeline in place then changes the original (and the other way round)", line=s.line)
+    rep.floor("module-level functions taking a CompilePipeline", n_fn, 1)
 
     # R-C23-fresh: the constructor's fast path stores its own list
     init = [f for f in cls.methods.get("__init__", []) if not any(norm(d).endswith("overload") for d in f.node.decorator_list)]
@@ -101,7 +125,8 @@ def check(ctx):
             else:
                 rep.unknown("R-C23-fresh", where, "stored value form not modelled")
     rep.floor("stores to _compile_pipeline in the constructor", n_store, 2)
-    from .c23_extra import extra
+    from .c23_extra import extra, slices
 
     extra(ctx, rep)
+    slices(ctx, rep)
     return rep
